@@ -15,6 +15,11 @@ code -> spec: the C06 statement stream (harness.dslgen + harness.relgen) x seede
               by TraceHints.tla on those contents; the statement is executed on SQLite with and without honouring the
               hints (each table occurrence replaced by "SELECT <offered columns> FROM t WHERE <offered predicate>", the
               predicate being the target code the parser passed) and both results must be results RelAlg's Eval allows.
+histories:    specs/LazyReads.tla  the columns a lazy reader offers its origins are a function of the read's own statement:
+                                   TLC enumerates every history of reads of TWIN statements (equal but for one clause:
+                                   origin / join condition, projection, filter, ordering); each history is replayed in a
+                                   fresh process (harness.feedproc) through one lazy reader whose origins record the
+                                   requested columns, and TraceHints.tla (LazyComplete) judges every read.
 A failure of the recorded hints is a listed finding only when the as-is model predicts a failure of the same clause for
 that statement (and the statement is in the finding's syntactic class); everything else is a VIOLATION.
 TLC's -coverage cannot be used with RelAlg (see C06); the NextDb action count is checked from the state statistics.
@@ -24,6 +29,7 @@ import json
 import multiprocessing
 import os
 import random
+import threading
 import time
 
 from harness import common, dslgen as g, relgen, tlc
@@ -33,6 +39,8 @@ PROCS = C06.PROCS
 OBS_BATCH = 120     # observations per TLC process when Safe is decided over a universe
 STREAM_BATCH = 700
 LAZY_EVERY = 2       # every n-th stream statement is also read through a lazy feed (requested columns)
+LAZY_DEPTH = (2, 3)     # reads per history of twin statements (quick, thorough)
+LAZY_HISTORIES = (150, 1500)   # histories replayed (TLC enumerates all of them; a seeded sample is replayed)
 
 F_NOT = 'not-factors-unnegated'
 F_OR = 'or-keeps-one-sided-factor'
@@ -42,9 +50,11 @@ F_REF = 'reference-shares-table-segment'
 F_LAZYEQ = 'lazy-columns-merge-equal-field-tables'
 
 # family, Depth, MaxRows, WithNull, tables of the universe
-QUICK = [('where', 1, 1, True, 2), ('on', 1, 2, False, 2), ('self', 1, 2, False, 2), ('three', 1, 1, True, 3)]
+QUICK = [('where', 1, 1, True, 2), ('on', 1, 2, False, 2), ('self', 1, 2, False, 2), ('three', 1, 1, True, 3),
+         ('negwhere', 1, 1, True, 2)]
 THOROUGH = [('where', 1, 2, True, 2), ('on', 1, 2, True, 2), ('self', 2, 2, True, 2), ('three', 1, 2, False, 3),
-            ('wheresmall', 2, 2, False, 2), ('onsmall', 2, 2, False, 2)]
+            ('wheresmall', 2, 2, False, 2), ('onsmall', 2, 2, False, 2), ('negwhere', 1, 2, True, 2),
+            ('negwide', 1, 1, True, 2), ('negon', 1, 2, False, 2)]
 TABLES2 = [['A', 2], ['B', 1]]
 TABLES3 = [['A', 2], ['B', 1], ['C', 1]]
 NULL = relgen.NULL
@@ -296,6 +306,103 @@ def stream_conformance(chk):
     return dict(stats)
 
 
+# ------------------------------------------------------------------------------------------------ lazy read histories
+NO_UNIVERSE = {'tables': [], 'maxrows': 0, 'dom': []}
+
+
+def lazy_cfg(depth):
+    path = os.path.abspath('lazyreads.cfg')
+    with open(path, 'w') as fh:
+        fh.write(f'SPECIFICATION Spec\nCONSTANTS Depth = {depth}\n Lits <- LazyLits\nINVARIANT FamilyWellFormed\n'
+                 'INVARIANT TwinsDiffer\nINVARIANT OwnStatementOnly\nINVARIANT NeedCoversUse\nINVARIANT Export\n'
+                 'POSTCONDITION Post\nCHECK_DEADLOCK FALSE\n')
+    return path
+
+
+class LazyHistories:
+    """Histories of reads through one lazy reader per fresh process: generated by TLC (LazyReads.tla), replayed in the
+    background by the feed processes while the families are model checked, judged by TLC (TraceHints.tla) at the end."""
+
+    def __init__(self, chk):
+        self.chk = chk
+        depth = LAZY_DEPTH[0 if chk.quick else 1]
+        res = chk.tlc('LazyReads', lazy_cfg(depth), workers=2, coverage=False, timeout=600)
+        head = res.tuples('LAZYREADS')
+        hists = [h for h in res.json_prints() if len(h['asts']) == depth]
+        # vacuity guard without -coverage: every history is a state of its own; one export per complete history
+        if not head or not hists or head[0][1] != res.distinct or len(hists) != len({json.dumps(h['asts']) for h in hists}):
+            raise tlc.MachineryError(f'LazyReads: {len(hists)} histories exported, {res.distinct} states\n{res.stdout[-1500:]}')
+        chk.coverage['LazyReads.Read'] = (res.distinct - 1, res.distinct - 1)
+        self.total, self.statements, self.depth = len(hists), head[0][0], depth
+        cap = LAZY_HISTORIES[0 if chk.quick else 1]
+        if len(hists) > cap:
+            random.Random(chk.seed + 4).shuffle(hists)
+            hists = hists[:cap]
+        self.hists = hists
+        self.zygotes = C06.Zygotes(PROCS)
+        self.replies, self.error = None, None
+        self.thread = threading.Thread(target=self._replay)
+        self.thread.start()
+
+    def _replay(self):
+        try:
+            jobs = [{'id': i, 'kind': 'lazy', 'stmts': h['asts']} for i, h in enumerate(self.hists)]
+            self.replies = self.zygotes.run(jobs)
+        except BaseException as exc:  # pylint: disable=broad-except
+            self.error = exc
+        finally:
+            self.zygotes.close()
+
+    def judge(self):
+        chk = self.chk
+        self.thread.join()
+        if self.error is not None:
+            raise self.error if isinstance(self.error, tlc.MachineryError) else tlc.MachineryError(repr(self.error))
+        obs, where = [], []
+        for i, h in enumerate(self.hists):
+            reads = self.replies[i]['reads']
+            if len(reads) != len(h['asts']):
+                raise tlc.MachineryError(f'lazy history replay returned {len(reads)} reads for {len(h["asts"])}')
+            for k, (ast, seen) in enumerate(zip(h['asts'], reads)):
+                obs.append(lazy_observation(ast, seen))
+                where.append((i, k))
+        verdicts = judge_hints(chk, obs, NO_UNIVERSE, [], 'lazyhist', STREAM_BATCH)
+        stats = collections.Counter(histories=len(self.hists), histories_of_the_bound=self.total,
+                                    statements_of_the_family=self.statements, reads_per_history=self.depth)
+        failed = set()
+        for (i, k), o, v in zip(where, obs, verdicts):
+            if v[0] != 1:
+                raise tlc.MachineryError(f'ill-formed statement in a lazy history: {relgen.show(o["ast"])}')
+            stats['reads'] += 1
+            if v[9] < 0:
+                stats['reads_not_observed_' + o['lazy']['res'].split(':')[0]] += 1   # the read raised: C06's subject
+                continue
+            stats['reads_judged'] += 1
+            if v[9] == 1 or i in failed:
+                continue
+            failed.add(i)
+            h = self.hists[i]
+            need = h['need'][k]
+            what = (f'lazy reader: read #{k + 1} of the history [' + ' ; '.join(relgen.show(a)[:150] for a in h['asts'][:k + 1])
+                    + f'] asked its origins for {dict((t, c) for t, c in o["lazy"]["cols"])}, the statement uses {need}')
+            finding = F_LAZYEQ if equal_field_tables(o['ast']) else None
+            chk.fail(what, {'level': 'lazy-history', 'asts': h['asts'], 'read': k, 'requested': o['lazy'], 'needs': need,
+                            'ast': o['ast']}, finding=finding)
+        if stats['reads_judged'] * 10 < stats['reads'] * 9:
+            raise tlc.MachineryError(f'lazy histories: only {stats["reads_judged"]} of {stats["reads"]} reads asked the '
+                                     f'origins for columns ({dict(stats)})')
+        chk.validated(len(self.hists) - len(failed))
+        if self.hists and 0 not in failed:
+            chk.sample({'lazy_history': [relgen.show(a) for a in self.hists[0]['asts']],
+                        'requested_columns': [r['cols'] for r in self.replies[0]['reads']]})
+        return dict(stats)
+
+
+def lazy_observation(ast, seen):
+    """An observation of TraceHints.tla that carries only the columns a lazy reader requested (res 'lazy': no hints)."""
+    return {'ast': ast, 'res': 'lazy', 'hints': [], 'runs': [], 'lazy': {'res': seen['res'], 'cols': seen['cols']}}
+
+
 # ------------------------------------------------------------------------------------------------ self-test
 def selftest(chk):
     """Synthetic observations over hand-made data: the right hints are accepted, each corruption is rejected."""
@@ -320,6 +427,11 @@ def selftest(chk):
     for (name, _, test), v in zip(cases, verdicts):
         real, model = failures(v)
         chk.selftest(f'hints_{name}', v[0] == 1 and bool(test(real, model)))
+    # columns requested by a lazy reader (synthetic): complete accepted, a column of the filter missing rejected
+    lazy = [lazy_observation(ast, {'res': 'ok', 'cols': [['B', cols]]}) for cols in (['i', 'k'], ['i'])]
+    good, bad = judge_hints(chk, lazy, NO_UNIVERSE, [], 'selftest-lazy', 50)
+    chk.selftest('lazy_requested_columns_complete_accepted', good[0] == 1 and good[9] == 1)
+    chk.selftest('lazy_requested_columns_missing_rejected', bad[0] == 1 and bad[9] == 0)
 
 
 # ------------------------------------------------------------------------------------------------ entry points
@@ -330,6 +442,7 @@ def main(chk):
     logging.disable(logging.CRITICAL)
     chk.extra['as_is_model_variant'] = {'FactorsImpl.Fixed': relgen.detect_fixes()}
     selftest(chk)
+    histories = LazyHistories(chk)      # replayed in the background while the families are model checked
     summary = {}
     for family, depth, maxrows, withnull, ntab in (QUICK if chk.quick else THOROUGH):
         t0 = time.time()
@@ -345,6 +458,7 @@ def main(chk):
     chk.extra['families'] = summary
     chk.extra['impl_model_drift'] = {'family_statements_with_hints_differing_from_FactorsImpl':
                                      sum(s['recorded_hints'].get('drift', 0) for s in summary.values())}
+    chk.extra['lazy_histories'] = histories.judge()
     chk.extra['stream'] = stream_conformance(chk)
     chk.extra['impl_model_drift']['stream_statements_with_hints_differing_from_FactorsImpl'] = chk.extra['stream'].get('drift', 0)
     chk.assume('hints are observed by a subclass of alchemy.Parser overriding visit_table (reads the public context '
@@ -352,6 +466,8 @@ def main(chk):
     chk.assume('a hint-honouring back-end is realised by replacing each table occurrence with a copy restricted by its '
                'hint (offered columns, rows passing the offered target-code predicate); the stock alchemy parser cannot '
                'host a substituted selectable in generate_table because element code stays bound to the resolved table')
+    chk.assume('a lazy reader\'s column requests are observed through the public hook lazy.Origin.partitions(columns, predicate) '
+               'of inline origins; every history of reads runs in a freshly started interpreter with its own ForML home')
     chk.assume('statements whose parsing raises offer no hints: the exception is property C06\'s subject, not C14\'s')
     chk.assume('limit/offset windows are stripped before judging Safe (a window picks rows by position)')
     chk.assume('statements with a cross join / Not / Abs are not EXECUTED with honoured hints (their SQL is wrong whatever '
@@ -362,6 +478,13 @@ def replay(chk, path):
     with open(path) as fh:
         rep = json.load(fh)['replay']
     ast = rep['ast']
+    if rep['level'] == 'lazy-history':
+        print('history:', [relgen.show(a) for a in rep['asts']], 'read', rep['read'] + 1, 'needs', rep['needs'])
+        reads = C06.replay_histories([{'id': 0, 'kind': 'lazy', 'stmts': rep['asts']}])[0]['reads']
+        print('requested now:', [r['cols'] for r in reads])
+        verdicts = judge_hints(chk, [lazy_observation(a, r) for a, r in zip(rep['asts'], reads)], NO_UNIVERSE, [], 'replay', 10)
+        print('LazyComplete per read:', [v[9] for v in verdicts])
+        return 0 if all(v[9] == 1 for v in verdicts) else 1
     print('statement:', relgen.show(ast))
     rec = relgen.record_hints(ast)
     print('recorded now:', rec['res'], [[h['path'], h['table']['name'], h['cols'], relgen.show(h['pred'])] for h in rec['hints']])
